@@ -6,7 +6,7 @@ Shuffle / PebblingFormula ▸ `to_dimacs_file`).  Quantified over EVERY argv tok
 
   (a) how a run can end            `cnfshuffle_outcome`, `k2p_outcome` (complete case lists),
                                    `tool_never_escapes_partial` (+ the two proven counter-models that make it partial),
-  (b) what a successful run wrote  `tool_output_readable_cnfshuffle`, `tool_output_readable_k2p`,
+  (b) what a successful run wrote  `tool_output_readable_cnfshuffle`, `k2p_ok_spec` (`C17.tool_output_readable_k2p`),
   (·) the report                   `report_prefix_*` (the prefix the tools really use — not the comment marker).
 
 The composition with C09 (the written formula is the shuffle of the formula read) is in Props/C09/Tools.lean, the one
